@@ -1109,91 +1109,6 @@ func ruleAdjacencyIsDecidedOnTheText(c *Ctx, rule string) {
 // copied element by element) — directly or through one module helper the slice is handed to.
 func ruleCallersSlicesAreNotRetained(c *Ctx, rule string, only string) {
 	c.R.Rule(c.R.Property+"."+rule, 0, "objects built from a caller's slice keep a copy, not the slice")
-	var keeps func(f *ssa.Function, p *ssa.Parameter, depth int) string
-	keeps = func(f *ssa.Function, p *ssa.Parameter, depth int) string {
-		where := ""
-		// the same memory under another name: a sub-slice, slices.Clip / Grow of it (no copy), a conversion
-		var sameMemory func(v ssa.Value, d int) bool
-		sameMemory = func(v ssa.Value, d int) bool {
-			if v == ssa.Value(p) {
-				return true
-			}
-			if d > 3 {
-				return false
-			}
-			switch y := v.(type) {
-			case *ssa.Slice:
-				return sameMemory(y.X, d+1)
-			case *ssa.ChangeType:
-				return sameMemory(y.X, d+1)
-			case *ssa.Phi:
-				for _, e := range y.Edges {
-					if sameMemory(e, d+1) {
-						return true
-					}
-				}
-			case *ssa.Call:
-				n := an.CalleeName(&y.Call)
-				if (strings.HasPrefix(n, "slices.Clip") || strings.HasPrefix(n, "slices.Grow")) && len(y.Call.Args) > 0 {
-					return sameMemory(y.Call.Args[0], d+1)
-				}
-			}
-			return false
-		}
-		an.AllInstrs(f, func(in ssa.Instruction) {
-			switch x := in.(type) {
-			case *ssa.Store:
-				if _, isFA := x.Addr.(*ssa.FieldAddr); isFA && sameMemory(x.Val, 0) {
-					where = "stored in a field at " + c.pos(in)
-				}
-				// a captured parameter lives in a cell: the cell is what the function literal binds
-				if cell, isCell := x.Addr.(*ssa.Alloc); isCell && x.Val == ssa.Value(p) {
-					for _, ref := range *cell.Referrers() {
-						mc, isMC := ref.(*ssa.MakeClosure)
-						if !isMC {
-							continue
-						}
-						// unless the cell is overwritten (m = slices.Clone(m)) on every path to the literal
-						reaches := (&an.Query{
-							Target: func(t ssa.Instruction) bool { return t == ssa.Instruction(mc) },
-							Block: func(t ssa.Instruction) bool {
-								s2, isSt := t.(*ssa.Store)
-								return isSt && s2.Addr == ssa.Value(cell) && s2.Val != ssa.Value(p)
-							},
-						}).Search(an.After(in))
-						if reaches != nil {
-							where = "captured by the function literal at " + c.pos(mc)
-						}
-					}
-				}
-				if ia, isIA := x.Addr.(*ssa.IndexAddr); isIA && ia.X == ssa.Value(p) {
-					where = "written into at " + c.pos(in)
-				}
-			case *ssa.MakeClosure:
-				for _, b := range x.Bindings {
-					if b == ssa.Value(p) {
-						where = "captured by the function literal at " + c.pos(in)
-					}
-				}
-			case *ssa.Call:
-				if depth >= 1 {
-					return
-				}
-				g := an.StaticCallee(&x.Call)
-				if g == nil || !an.InModule(g) || len(g.Blocks) == 0 {
-					return
-				}
-				for i, a := range an.CallArgs(&x.Call) {
-					if a == ssa.Value(p) && i < len(g.Params) {
-						if w := keeps(g, g.Params[i], depth+1); w != "" {
-							where = w + " (through " + an.FuncKey(g) + ")"
-						}
-					}
-				}
-			}
-		})
-		return where
-	}
 	for _, f := range c.libFuncs() {
 		k := an.FuncKey(f)
 		if !strings.HasPrefix(k, "mux.") || f.Parent() != nil || f.Object() == nil || !f.Object().Exported() {
@@ -1217,7 +1132,7 @@ func ruleCallersSlicesAreNotRetained(c *Ctx, rule string, only string) {
 			// lists of options and middlewares are judged like any other: their elements are immutable values, but a
 			// list that is kept (NewGroup's options, read again by every Group.New) changes when the caller reuses
 			// the slice it spread into the call
-			w := keeps(f, p, 0)
+			w := sliceKeeps(c, f, p, 0)
 			c.R.Add(rule, k, "param:"+p.Name()+"/not-retained", c.P.Pos(f.Pos()), w == "", ifelse(w == "", "the slice is copied or only read during the call", "the caller's slice "+p.Name()+" is "+w+": the object built here keeps using the caller's memory — editing or reusing the slice afterwards changes what the finished object accepts, and objects built from one slice are coupled"))
 		}
 	}
@@ -2512,4 +2427,171 @@ func noOpeningBraceEdge(c *Ctx, isText func(ssa.Value) bool) func(b *ssa.BasicBl
 			return false
 		})
 	}
+}
+
+// ruleInstallsAreCounted — C04.R19 / C03.R20: the tree-wide counters (how many live nodes carry a method) decide what
+// "OPTIONS *" lists, and Remove / Clean take away what a node carried. That only balances when every registration adds
+// what it installed: in a function that installs handlers under the elements of a caller's method list, every path
+// from an installation to a return passes the call of the tree's summary builder with that very list (or a complete
+// recount). Counting only the methods that are "new to the tree" turns the counters into flags — the first Remove of
+// one of two routes with GET then takes GET out of OPTIONS * although the other route still serves it.
+func ruleInstallsAreCounted(c *Ctx, rule string) {
+	a := c.A
+	c.R.Rule(c.R.Property+"."+rule, 1, "every registration adds the methods it installed to the tree-wide counters")
+	n := 0
+	for _, f := range c.libFuncs() {
+		f := f
+		if !strings.HasPrefix(an.FuncKey(f), a.TreePkg.Name()+".") {
+			continue
+		}
+		// installations under an element of a parameter list
+		var installs []ssa.Instruction
+		listAP := ""
+		an.AllInstrs(f, func(in ssa.Instruction) {
+			mu, ok := in.(*ssa.MapUpdate)
+			if !ok {
+				return
+			}
+			if _, isH := fieldLoadOf(mu.Map, a.NodeT, a.FHandlers); !isH {
+				return
+			}
+			_, sl, isElem := an.RangeLoopOf(mu.Key)
+			if !isElem {
+				return
+			}
+			if ap := an.AP(sl); strings.HasPrefix(ap, "p:") {
+				installs = append(installs, in)
+				listAP = ap
+			}
+		})
+		if len(installs) == 0 {
+			continue
+		}
+		n++
+		counts := func(t ssa.Instruction) bool {
+			call := an.CallOf(t)
+			if call == nil {
+				return false
+			}
+			g := an.StaticCallee(call)
+			if g == nil {
+				return false
+			}
+			reachesBuilder := an.Origin(g) == an.Origin(a.TreeSummaryBuilder)
+			if !reachesBuilder && an.IsLibrary(g) {
+				for _, h := range builderCluster(c, an.Origin(g)) {
+					if h == an.Origin(a.TreeSummaryBuilder) {
+						reachesBuilder = true
+					}
+				}
+			}
+			if reachesBuilder {
+				for _, arg := range call.Args {
+					if an.AP(arg) == listAP {
+						return true
+					}
+				}
+				return false
+			}
+			// a complete recount: a tree method that clears the counters and reaches the builder
+			return strings.Contains(an.FuncKey(g), "recount")
+		}
+		path := (&an.Query{
+			Target: func(t ssa.Instruction) bool { r, isRet := t.(*ssa.Return); return isRet && an.IsSuccessReturn(r) },
+			Block:  counts,
+		}).Search(an.After(installs[0]))
+		o := c.R.Add(rule, c.fk(f), "install:handlers["+listAP+"[]]/then:counted-with-the-same-list", c.pos(installs[0]), path == nil, ifelse(path == nil, "every path from the installation to the return adds the registered list to the tree-wide counters", "handlers are installed under the methods of "+listAP+" and a return is reachable without adding that list to the tree-wide counters (the update is conditional, or given a filtered list): the counters stop being counts, and removing one of two routes that serve a method takes the method out of OPTIONS * while the other route still serves it"))
+		if path != nil {
+			o.Path = c.P.PathString(path)
+		}
+	}
+	if n == 0 {
+		c.R.Add(rule, "pkg:tree", "install:handlers[list-element]", "-", true, "no function installs handlers under the elements of a parameter list (another form: not decided here)")
+	}
+}
+
+// sliceKeeps: where f keeps the memory of its slice parameter p ("" = it does not).
+func sliceKeeps(c *Ctx, f *ssa.Function, p *ssa.Parameter, depth int) string {
+	where := ""
+	// the same memory under another name: a sub-slice, slices.Clip / Grow of it (no copy), a conversion
+	var sameMemory func(v ssa.Value, d int) bool
+	sameMemory = func(v ssa.Value, d int) bool {
+		if v == ssa.Value(p) {
+			return true
+		}
+		if d > 3 {
+			return false
+		}
+		switch y := v.(type) {
+		case *ssa.Slice:
+			return sameMemory(y.X, d+1)
+		case *ssa.ChangeType:
+			return sameMemory(y.X, d+1)
+		case *ssa.Phi:
+			for _, e := range y.Edges {
+				if sameMemory(e, d+1) {
+					return true
+				}
+			}
+		case *ssa.Call:
+			n := an.CalleeName(&y.Call)
+			if (strings.HasPrefix(n, "slices.Clip") || strings.HasPrefix(n, "slices.Grow")) && len(y.Call.Args) > 0 {
+				return sameMemory(y.Call.Args[0], d+1)
+			}
+		}
+		return false
+	}
+	an.AllInstrs(f, func(in ssa.Instruction) {
+		switch x := in.(type) {
+		case *ssa.Store:
+			if _, isFA := x.Addr.(*ssa.FieldAddr); isFA && sameMemory(x.Val, 0) {
+				where = "stored in a field at " + c.pos(in)
+			}
+			// a captured parameter lives in a cell: the cell is what the function literal binds
+			if cell, isCell := x.Addr.(*ssa.Alloc); isCell && x.Val == ssa.Value(p) {
+				for _, ref := range *cell.Referrers() {
+					mc, isMC := ref.(*ssa.MakeClosure)
+					if !isMC {
+						continue
+					}
+					// unless the cell is overwritten (m = slices.Clone(m)) on every path to the literal
+					reaches := (&an.Query{
+						Target: func(t ssa.Instruction) bool { return t == ssa.Instruction(mc) },
+						Block: func(t ssa.Instruction) bool {
+							s2, isSt := t.(*ssa.Store)
+							return isSt && s2.Addr == ssa.Value(cell) && s2.Val != ssa.Value(p)
+						},
+					}).Search(an.After(in))
+					if reaches != nil {
+						where = "captured by the function literal at " + c.pos(mc)
+					}
+				}
+			}
+			if ia, isIA := x.Addr.(*ssa.IndexAddr); isIA && ia.X == ssa.Value(p) {
+				where = "written into at " + c.pos(in)
+			}
+		case *ssa.MakeClosure:
+			for _, b := range x.Bindings {
+				if b == ssa.Value(p) {
+					where = "captured by the function literal at " + c.pos(in)
+				}
+			}
+		case *ssa.Call:
+			if depth >= 1 {
+				return
+			}
+			g := an.StaticCallee(&x.Call)
+			if g == nil || !an.InModule(g) || len(g.Blocks) == 0 {
+				return
+			}
+			for i, a := range an.CallArgs(&x.Call) {
+				if a == ssa.Value(p) && i < len(g.Params) {
+					if w := sliceKeeps(c, g, g.Params[i], depth+1); w != "" {
+						where = w + " (through " + an.FuncKey(g) + ")"
+					}
+				}
+			}
+		}
+	})
+	return where
 }
